@@ -31,6 +31,9 @@ type JApiCore struct {
 	// macro contains list of all project macros.
 	macro map[string]*directive.Directive
 
+	// macroNames the names of all project macros in the order of declaration.
+	macroNames []string
+
 	// expandingMacros a "set" of macros which are being expanded by PASTE right now.
 	expandingMacros map[string]struct{}
 
